@@ -59,6 +59,9 @@ class ChainProfile(session.Profile):
             for st in h2["models"][0]["sites"]:
                 if st["type"] != "spin":
                     st.clear(); st.update({"type": "spin", "dof": "s%d" % rnd.randrange(10 ** 6)})
+            from simlab.gen import models as gm
+            h2["models"][0]["ham"] = gm.gen_hamiltonian(rnd, h2["models"][0]["sites"], 1)
+            h2["models"][0].pop("twin_of", None)
             h["models"] = h2["models"][:1]
             h["knobs"]["stress_terms"] = rnd.choice([900, 1400])
         if self.pid in ("C01", "C03", "C07") and rnd.random() < 0.35:
